@@ -100,6 +100,10 @@ def value_worker(case):
                     fl = type(a)._fields[-1]
                     rl = a._replace(**{fl: 'LAST'})
                     ops['replace_last'] = [getattr(rl, fl) == 'LAST', list(rl._asdict().keys()) == list(type(a)._fields)]
+                    # the copy has metadata of its own: annotating it does not show on the original
+                    r._metadata.verif_note = 'copy'
+                    ops['replace_metadata_is_a_copy'] = [r._metadata is not a._metadata,
+                                                         getattr(a._metadata, 'verif_note', None) is None]
                     z = mod.Z()
                     ops['fresh_object_has_no_position'] = [getattr(z._metadata, 'position_info', None) is None,
                                                            not z._metadata]
